@@ -17,7 +17,10 @@ EXTENDS Big, TLC, Json, IOUtils, FiniteSets, FiniteSetsExt
 Trace == ndJsonDeserialize(IOEnv.TRACE_FILE)
 H == Trace[1]
 CONSTANT ClauseSet          \* names of the enabled clauses (set in the generated cfg)
-VARIABLES i, bad
+VARIABLES i, bad,
+          win,     \* per duration group: arrivals of the most recent steps of the current run (newest last)
+          age,     \* steps since the current run started
+          ini      \* rows of the timed compartments at the start of the current run
 
 NC == Len(H.kind)
 NL == Len(H.lsrc)
@@ -51,10 +54,24 @@ NonNeg(e) == {<<e.ti, "NonNeg", c>> : c \in {c \in 1..NC : \E r \in 1..Len(e.nx[
 Finite(e) == {<<e.ti, "Finite", k>> : k \in 1..Len(e.nonfinite)}
 NoOverdraw(e) == {<<e.ti, "NoOverdraw", c>> : c \in {c \in 1..NC : H.kind[c] \in {"normal","timed"} /\
       ~SLe(OutF(e,c), SAdd(Tot(e.st[c]), Tol(Tot(e.st[c]), K1e9, NTerms(c))))}}
-\* competing outflows of an ordinary compartment keep the ratios of their per-step fractions
+\* competing outflows of an ordinary compartment keep the ratios of the *documented requests* (C03's conversion of the
+\* parameter values, as a fraction num/den so that no division is needed):  flow1 * req2 = flow2 * req1
+Req(e, l) == LET p == H.lpar[l]  v == e.pv[p]  u == H.units[p]  T == H.tscale[p] IN
+   IF v.s <= 0 THEN <<SZero, SOne>>
+   ELSE IF u \in {"probability","rate"} THEN <<SRescale(SMul(v, H.dt)), T>>
+   ELSE IF u = "duration" THEN <<H.dt, SRescale(SMul(v, T))>>
+   ELSE IF u = "number" THEN LET ls == {k \in 1..NL : H.lpar[k] = p /\ ~H.lflush[k]}
+                                 pop == BSum(ls, [k \in ls |-> Tot(e.st[H.lsrc[k]])])
+                             IN IF pop.s = 0 THEN <<SZero, SOne>> ELSE <<SRescale(SMul(v, H.dt)), SRescale(SMul(T, pop))>>
+   ELSE <<SZero, SOne>>
+Slack3(a, b, c) == UAdd(UAdd(UAdd(UMul(a.m, b.m), UMul(a.m, c.m)), UMul(b.m, c.m)), <<64>>)
+RatioOK(e, l1, l2) == LET r1 == Req(e, l1)  r2 == Req(e, l2)
+                          f1 == e.fl[l1][1]  f2 == e.fl[l2][1]
+                          lhs == SMul(SMul(f1, r2[1]), r1[2])
+                          rhs == SMul(SMul(f2, r1[1]), r2[2])
+                      IN RelClose(lhs, rhs, K1e8, UAdd(Slack3(f1, r2[1], r1[2]), Slack3(f2, r1[1], r2[2])))
 Ratio(e) == {<<e.ti, "Ratio", c>> : c \in {c \in 1..NC : H.kind[c] = "normal" /\
-      \E l1, l2 \in Outl(c) : l1 < l2 /\ e.ca[l1].s >= 0 /\ e.ca[l2].s >= 0 /\
-         ~RelClose(SMul(e.fl[l1][1], e.ca[l2]), SMul(e.fl[l2][1], e.ca[l1]), K1e9, PSlack(SAdd(e.fl[l1][1], e.fl[l2][1]), SAdd(e.ca[l1], e.ca[l2])))}}
+      \E l1, l2 \in {l \in Outl(c) : H.lpar[l] > 0} : l1 < l2 /\ ~RatioOK(e, l1, l2)}}
 NegZero(e) == {<<e.ti, "NegZero", l>> : l \in {l \in 1..NL : H.lpar[l] > 0 /\ ~H.lflush[l] /\ ~IsJ(H.lsrc[l]) /\ e.pv[H.lpar[l]].s < 0 /\ Tot(e.fl[l]).s # 0}}
 
 \* ---------------------------------------------------------------------------------------------- C03
@@ -93,6 +110,11 @@ JSplitOK(e, j) == LET outs == Outl(j)
                           ELSE RelClose(SMul(Tot(e.fl[l]), SMax(SOne, tot)), SMul(inflow, fr[l]), K1e9, PSlack(SAdd(Tot(e.fl[l]), inflow), SAdd(SMax(SOne, tot), fr[l])))
 JSplit(e) == {<<e.ti, "JSplit", j>> : j \in {j \in 1..NC : IsJ(j) /\ InF(e, j).s > 0 /\ ~JSplitOK(e, j)}}
 
+\* the start-up flush moves the initial content of junctions downstream: nobody is created or lost (init = state injected
+\* before the flush, logged with the first step of a run; st = state at index 0 after the flush)
+FlushConserves(e) == IF e.init = <<>> THEN {} ELSE
+      IF SClose(People(e.st), People(e.init), K1e9, 4 * NC) THEN {} ELSE {<<e.ti, "FlushConserves", 0>>}
+
 \* ---------------------------------------------------------------------------------------------- C05
 \* n rows is right for duration D when (n-1)*dt < D <= n*dt up to rounding (rtol 1e-9), or n = 1 and D <= dt
 RowsOK(c) == LET n == H.rows[c]  D == H.dur[c]  tol == Tol(D, K1e9, 4) IN
@@ -115,20 +137,52 @@ ShiftRel(e) == {<<e.ti, "ShiftRel", c>> : c \in {c \in 1..NC : H.kind[c] = "time
 FlushAll(e) == {<<e.ti, "FlushAll", c>> : c \in {c \in 1..NC : H.kind[c] = "timed" /\
       (~SClose(e.outc[c][1], e.st[c][1], K1e9, 8) \/ ~SClose(SSumSeq(e.outc[c]), OutF(e, c), K1e9, NTerms(c) + Len(e.st[c])))}}
 
+\* ---- history clauses (C05): occupancy bound and never-early release over the steps of one run -----------------
+Groups == {H.grp[c] : c \in 1..NC} \ {0}
+Group(g) == {c \in 1..NC : H.grp[c] = g}
+GN(g) == LET c == CHOOSE c \in Group(g) : H.kind[c] = "timed" IN H.rows[c]
+Arrivals(e, g) == LET ls == {l \in 1..NL : H.ldst[l] \in Group(g) /\ ~H.ltimed[l]} IN BSum(ls, [l \in ls |-> Tot(e.fl[l])])
+FlushedG(e, g) == LET ls == {l \in 1..NL : H.lsrc[l] \in Group(g) /\ H.lflush[l]} IN BSum(ls, [l \in ls |-> Tot(e.fl[l])])
+OccupancyG(st, g) == LET cs == Group(g) IN BSum(cs, [c \in cs |-> Tot(st[c])])
+LastN(s, n) == IF Len(s) <= n THEN s ELSE SubSeq(s, Len(s) - n + 1, Len(s))
+IniRowsFrom(st0, g, t) == LET cs == {c \in Group(g) : H.kind[c] = "timed"} IN
+      BSum(cs, [c \in cs |-> SSumSeq([r \in 1..Len(st0[c]) |-> IF r > t THEN st0[c][r] ELSE SZero])])
+IniRow(st0, g, u) == LET cs == {c \in Group(g) : H.kind[c] = "timed"} IN
+      BSum(cs, [c \in cs |-> IF u <= Len(st0[c]) THEN st0[c][u] ELSE SZero])
+\* evaluated with w = window including this step's arrivals, t = number of steps of the run including this one
+BoundF(e, w, t, st0) == {<<e.ti, "Bound", g>> : g \in {g \in Groups :
+      LET lim == SAdd(SSumSeq(LastN(w[g], GN(g))), IniRowsFrom(st0, g, t))
+      IN ~SLe(OccupancyG(e.nx, g), SAdd(lim, Tol(lim, K1e9, 64)))}}
+\* what is flushed in the u-th step of a run is at most initial row u (u <= n) plus the arrivals of step u-n
+NotEarlyF(e, wprev, t, st0) == {<<e.ti, "NotEarly", g>> : g \in {g \in Groups :
+      LET n == GN(g)
+          lim == SAdd(IF t <= n THEN IniRow(st0, g, t) ELSE SZero, IF t > n /\ Len(wprev[g]) >= n THEN wprev[g][Len(wprev[g]) - n + 1] ELSE SZero)
+      IN ~SLe(FlushedG(e, g), SAdd(lim, Tol(lim, K1e9, 64)))}}
+
 Failing(e) ==
   LET on(n) == n \in ClauseSet IN
   (IF on("Balance") THEN Balance(e) ELSE {}) \cup (IF on("JunctionPass") THEN JunctionPass(e) ELSE {}) \cup (IF on("Global") THEN Global(e) ELSE {})
   \cup (IF on("NonNeg") THEN NonNeg(e) ELSE {}) \cup (IF on("Finite") THEN Finite(e) ELSE {}) \cup (IF on("NoOverdraw") THEN NoOverdraw(e) ELSE {})
   \cup (IF on("Ratio") THEN Ratio(e) ELSE {}) \cup (IF on("NegZero") THEN NegZero(e) ELSE {})
   \cup (IF on("ConvertRel") THEN ConvertRel(e) ELSE {}) \cup (IF on("ResolveRel") THEN ResolveRel(e) ELSE {})
-  \cup (IF on("JEmpty") THEN JEmpty(e) ELSE {}) \cup (IF on("JSplit") THEN JSplit(e) ELSE {})
+  \cup (IF on("JEmpty") THEN JEmpty(e) ELSE {}) \cup (IF on("JSplit") THEN JSplit(e) ELSE {}) \cup (IF on("FlushConserves") THEN FlushConserves(e) ELSE {})
   \cup (IF on("Rows") THEN Rows(e) ELSE {}) \cup (IF on("ShiftRel") THEN ShiftRel(e) ELSE {}) \cup (IF on("FlushAll") THEN FlushAll(e) ELSE {})
 
-Init == i = 2 /\ bad = {}
+Init == i = 2 /\ bad = {} /\ win = [g \in Groups |-> <<>>] /\ age = 0 /\ ini = <<>>
 Next == /\ i <= Len(Trace)
-        /\ bad' = IF Cardinality(bad) > 20 THEN bad ELSE bad \cup Failing(Trace[i])
+        /\ LET e == Trace[i]
+               hist == Groups # {} /\ ({"Bound","NotEarly"} \cap ClauseSet) # {}
+               st0 == IF e.first THEN e.st ELSE ini
+               wprev == IF e.first THEN [g \in Groups |-> <<>>] ELSE win
+               t == IF e.first THEN 1 ELSE age + 1
+               w == [g \in Groups |-> LastN(Append(wprev[g], Arrivals(e, g)), GN(g) + 1)]
+               more == IF ~hist THEN {} ELSE (IF "Bound" \in ClauseSet THEN BoundF(e, w, t, st0) ELSE {}) \cup (IF "NotEarly" \in ClauseSet THEN NotEarlyF(e, wprev, t, st0) ELSE {})
+           IN /\ bad' = IF Cardinality(bad) > 20 THEN bad ELSE bad \cup Failing(e) \cup more
+              /\ win' = IF hist THEN w ELSE win
+              /\ age' = t
+              /\ ini' = IF hist THEN st0 ELSE ini
         /\ i' = i + 1
-Spec == Init /\ [][Next]_<<i, bad>>
+Spec == Init /\ [][Next]_<<i, bad, win, age, ini>>
 Verdict == i > Len(Trace) => bad = {}
 Consumed == TLCGet("stats").diameter = Len(Trace)
 ====
